@@ -154,7 +154,7 @@ class C04(runner.Check):
   assumptions = [
       'pre-emption granularity is datastore call + lock operation; races inside one datastore method are out of scope (GIL + its own lock)',
       'UpdateMetadataResponse.error_details is treated as the NOT_FOUND family',
-      'the designer_policy cache entry incorporated_completed_trials_ids is only required to be a subset of the completed ids',
+      'the designer_policy cache entry incorporated_completed_trials_ids is exempt from the comparison (a completion or deletion landing between a suggest and its Pythia call is legitimately seen by the policy; exactly-once delivery is C12)',
       'early-stopping answers are exempt from the comparison',
   ]
   runs = {'quick': 1600, 'thorough': 16000}
@@ -316,17 +316,6 @@ class C04(runner.Check):
           if not o['done']:
             viol.append(('unfinished-operation', f'{oname} left done=False by the batch'))
             break
-        for name, st in snap['studies'].items():
-          if not isinstance(st['trials'], dict) or not isinstance(st['study'], dict):
-            continue
-          completed = {i for i, t in st['trials'].items() if t['state'] in ('SUCCEEDED', 'INFEASIBLE')}
-          for e in st['study']['md']:
-            if e[1] == INCORP_KEY and e[2] == 'S':
-              import json  # pylint: disable=g-import-not-at-top
-              # ids of trials that no longer exist (deleted after delivery) are legitimate
-              ids = set(json.loads(e[3])) & set(st['trials'])
-              if not ids <= completed:
-                viol.append(('algorithm-cache-names-uncompleted-trials', f'{name}: cache {sorted(ids)} completed {sorted(completed)}'))
         for name in old_studies - set(snap['studies']):
           o, d = name.split('/')[1][1:], name.split('/')[3][1:]
           O.execute(sv, {'kind': 'CreateStudy', 'owner': int(o), 'display': int(d), 'state': 'ACTIVE'}, cfg)
